@@ -86,6 +86,10 @@ func c20NewEnv(hook func(kind, key string)) *c20Env {
 	if c20EnvCount%2 == 0 { // every second server is configured with the application's own login page (one shared template value)
 		opts.LoginFormTemplate = c20CustomLogin
 	}
+	if c20EnvCount%3 == 0 { // a server brought up on a single-processor host (the processor count may be read at start-up)
+		prev := runtime.GOMAXPROCS(1)
+		defer runtime.GOMAXPROCS(prev)
+	}
 	srv, err := samlidp.New(opts)
 	if err != nil {
 		panic(err)
@@ -98,7 +102,18 @@ func c20NewEnv(hook func(kind, key string)) *c20Env {
 		var idpMD saml.EntityDescriptor
 		_ = xmlUnmarshal(ib, &idpMD)
 		sp := &saml.ServiceProvider{Key: fx.K("sp_rsa1024").Key, MetadataURL: mustURL("https://" + n + ".example.com/saml/metadata"), AcsURL: mustURL("https://" + n + ".example.com/saml/acs"), IDPMetadata: &idpMD}
+		if n == "spa" { // this one publishes an encryption certificate, written the way metadata files usually are: in 64-column lines
+			sp.Certificate = fx.K("sp_rsa1024").Cert
+		}
 		mb, _ := xmlMarshal(sp.Metadata())
+		if sp.Certificate != nil {
+			b64 := fx.K("sp_rsa1024").CertB64()
+			var wrapped strings.Builder
+			for i := 0; i < len(b64); i += 64 {
+				wrapped.WriteString("\n" + b64[i:min(len(b64), i+64)])
+			}
+			mb = bytes.ReplaceAll(mb, []byte(b64), []byte(wrapped.String()+"\n"))
+		}
 		e.sps = append(e.sps, &c19SP{name: n, sp: sp, entity: sp.MetadataURL.String(), acs: sp.AcsURL.String(), mdXML: mb})
 	}
 	return e
@@ -234,6 +249,18 @@ func (e *c20Env) serveWatched(c *core.Ctx, what string, req *http.Request) bool 
 		c20Stuck.Store(true)
 		states, dump := sched.States()
 		st := states[gid.Load()]
+		if st != "sync.RWMutex.RLock" && st != "sync.RWMutex.Lock" && st != "sync.Mutex.Lock" {
+			quiet := true
+			for probe := 0; probe < 5 && quiet; probe++ {
+				ss, _ := sched.States()
+				quiet = sched.Quiescent(ss, sched.Gid())
+				time.Sleep(50 * time.Millisecond)
+			}
+			if quiet {
+				c.Violation("C20/deadlock/single-request-quiescent/"+what, fmt.Sprintf("a single %s request with no other request in flight never completes: its goroutine waits in %q and no goroutine of the process can run", what, st), map[string]any{"goroutines": truncate(dump, 20000)})
+				return false
+			}
+		}
 		if st == "sync.RWMutex.RLock" || st == "sync.RWMutex.Lock" || st == "sync.Mutex.Lock" {
 			c.Violation("C20/deadlock/single-request/"+what, fmt.Sprintf("a single %s request with no other request in flight never completes: its goroutine waits in %s", what, st), map[string]any{"goroutines": truncate(dump, 20000)})
 		} else {
@@ -362,6 +389,22 @@ func c20Stress(c *core.Ctx) {
 					blocked = append(blocked, st)
 				}
 				time.Sleep(50 * time.Millisecond)
+			}
+			if !allLocked && len(blocked) > 0 {
+				// second rule: the whole process is quiescent (nobody runs, sleeps or waits for the outside world) while
+				// requests are unfinished, and stays so: whatever they wait for (a channel, a condition) will not come
+				quiet := true
+				for probe := 0; probe < 5 && quiet; probe++ {
+					states, d := sched.States()
+					dump = d
+					quiet = sched.Quiescent(states, sched.Gid())
+					time.Sleep(50 * time.Millisecond)
+				}
+				if quiet {
+					sort.Strings(blocked)
+					c.Violation("C20/deadlock/stress-quiescent", fmt.Sprintf("free-running stress stopped making progress: %d request goroutines are unfinished (%v) and no goroutine of the process can run", len(blocked), blocked), map[string]any{"seed": seed, "goroutines": truncate(dump, 20000)})
+					return
+				}
 			}
 			if allLocked && len(blocked) > 0 {
 				sort.Strings(blocked)
